@@ -510,7 +510,7 @@ fn run_one(scn: &Scn, g: &Guest, seed: u64) -> ExecResult {
 // ------------------------------------------------------------------ generator
 
 fn gen_text(rng: &mut Rng) -> Vec<u8> {
-    let alphabet: [&str; 16] = ["a", "Z", " ", "\n", "\\", "\\n", "\\\\", ":", "\r", "\u{e9}", "\u{3042}", "\u{1f600}", "stdout:", "cmd:stop\n", "\\\n", "n"];
+    let alphabet: [&str; 20] = ["a", "Z", " ", "\n", "\\", "\\n", "\\\\", ":", "\r", "\u{e9}", "\u{3042}", "\u{1f600}", "stdout:", "cmd:stop\n", "\\\n", "n", "\u{2028}", "\u{85}", "\r\n", "\0"];
     // mostly short; sometimes long enough that multi-byte characters straddle byte 128 / 1024 of the outgoing line
     let len = match rng.below(40) {
         0..=2 => rng.range(100, 300),
@@ -612,7 +612,7 @@ impl Property for C18N {
         }
         let total: usize = lines.iter().map(|l| l.len() + 1).sum();
         let ending = match ending {
-            Ending::HalfClose { .. } => Ending::HalfClose { after_bytes: rng.range(1, total as u64) as usize },
+            Ending::HalfClose { .. } => Ending::HalfClose { after_bytes: if rng.chance(1, 10) { 0 } else { rng.range(1, total as u64) as usize } },
             e => e,
         };
         // chunking of the controller's writes
